@@ -420,8 +420,11 @@ def check_chain(rng, schema, acc, seed):
         for frag, acl in frs:
             exp = jsontools.apply_json_fragment(exp, frag, acl)
     except Exception as e:
-        mech = classify_fragment([p for _, a in frs for p in a], old, {"_": [f for f, _ in frs]})
-        if mech is None:
+        docs = [old] + [f for f, _ in frs]
+        if any(has_array_step(p, docs) for _, a in frs for p in a):
+            # the listed finding (a pattern step selects array elements), met through the chained front end
+            acc.violation("C13/fragment/array-elements-selected-by-pattern", "apply_json_fragment raised on documents of one schema", dict(w, error=repr(e)[:200]))
+        else:
             acc.violation("C13/chain/exception-%s" % type(e).__name__, "chaining fragments raised", dict(w, error=repr(e)[:200]))
         return
     acc.count("chains")
